@@ -76,6 +76,17 @@ class Distribution(ABC):
         """Set a new random stream for this distribution."""
         self._set_stream(stream)
         
+    def _next_positive_float(self) -> float:
+        """
+        Return the next pseudo-random number on the open interval (0, 1) 
+        from the stream, for use in expressions such as log(u) that are not
+        defined for u = 0. Numbers larger than 0 are returned unchanged.
+        """
+        u: float = self._stream.next_float()
+        while u == 0.0:
+            u = self._stream.next_float()
+        return u
+
     def _set_stream(self, stream: StreamInterface):
         """Internal method that can be overridden to initialize the 
         underlying distributions when a new random stream is set for 
@@ -524,7 +535,7 @@ class DistErlang(DistContinuous):
             # repeated drawing and composition is usually faster for k<=10
             product: float = 1.0
             for _ in range(self._k):
-                product *= self._stream.next_float()
+                product *= self._next_positive_float()
             return -self._scale * math.log(product)
         return self._dist_gamma.draw()
 
@@ -604,7 +615,7 @@ class DistExponential(DistContinuous):
         """
         Draw a value from the Exponential distribution.
         """
-        return -self._mean * math.log(self._stream.next_float())
+        return -self._mean * math.log(self._next_positive_float())
 
     def probability_density(self, x: float) -> float:
         """Returns the probability density value for value x."""
@@ -679,7 +690,7 @@ class DistGamma(DistContinuous):
             counter: int = 0
             while counter < 1000:
                 #  step 1.
-                p: float = b * self._stream.next_float()
+                p: float = b * self._next_positive_float()
                 if p <= 1.0:
                     #  step 2.
                     y: float = p ** (1.0 / self._shape)
@@ -704,8 +715,8 @@ class DistGamma(DistContinuous):
             counter: int = 0
             while counter < 1000:
                 #  step 1.
-                u1: float = self._stream.next_float()
-                u2: float = self._stream.next_float()
+                u1: float = self._next_positive_float()
+                u2: float = self._next_positive_float()
                 #  step 2.
                 v = a * math.log(u1 / (1.0 - u1))
                 y = self._shape * math.exp(v)
@@ -723,7 +734,7 @@ class DistGamma(DistContinuous):
         else:
             #  shape == 1.0
             #  Gamma(1.0, scale) ~ exponential with mean = scale
-            return -self._scale * math.log(self._stream.next_float())
+            return -self._scale * math.log(self._next_positive_float())
 
     def probability_density(self, x: float) -> float:
         """Returns the probability density value for value x."""
@@ -796,7 +807,7 @@ class DistGeometric(DistDiscrete):
         the number of failures of independent Bernoulli trials until the
         first success.
         """
-        u = self._stream.next_float()
+        u = self._next_positive_float()
         return math.floor(math.log(u) / self._lnp)
 
     def probability(self, observation: int) -> float:
@@ -872,7 +883,7 @@ class DistNegBinomial(DistDiscrete):
         """
         x: int = 0
         for _ in range(self._s):
-            u = self._stream.next_float()
+            u = self._next_positive_float()
             x += math.floor(math.log(u) / self._lnp)
         return x
 
@@ -1748,7 +1759,7 @@ class DistWeibull(DistContinuous):
         """
         Draw a value from the Weibull distribution.
         """
-        return (self._beta * math.pow(-math.log(self._stream.next_float()), 
+        return (self._beta * math.pow(-math.log(self._next_positive_float()), 
                                       1.0 / self._alpha))
 
     def probability_density(self, x: float) -> float:
